@@ -1406,8 +1406,10 @@ ElemNumber::getFormattedNumber(
                 {
                     traditionalAlphaCount(listElement, s_elalphaResourceBundle, theResult);
                 }
-                else if (equals(letterVal, s_alphabeticString) == true)
+                else if (letterVal.empty() == true ||
+                         equals(letterVal, s_alphabeticString) == true)
                 {
+                    // letter-value is optional...
                     int2alphaCount(listElement, s_elalphaCountTable, s_elalphaCountTableSize, theResult);
                 }
                 else
